@@ -124,6 +124,27 @@ def unfold_then_eager(prog, leaves):
     return funsor.reinterpret(t)
 
 
+def normalize_then_optimizer(prog, leaves):
+    from funsor.interpretations import normalize
+    from funsor.optimizer import apply_optimizer
+    from lang.build import build
+    with normalize:
+        t = build(prog, leaves)
+    return apply_optimizer(t)
+
+
+def lazy_unfold_optimize(prog, leaves):
+    import funsor
+    from funsor.interpretations import lazy, normalize
+    from funsor.optimizer import apply_optimizer
+    from lang.build import build
+    with lazy:
+        t = build(prog, leaves)
+    with normalize:
+        t = funsor.reinterpret(t)
+    return apply_optimizer(t)
+
+
 SCHEDULES = {
     "immediate": immediate,
     "lazy": deferred("lazy"),
@@ -143,4 +164,6 @@ SCHEDULES = {
     "normalize_idem": normalize_then_eager,
     "lazy_normalize_eager": lazy_normalize_eager,
     "unfold": unfold_then_eager,
+    "normalize>optimizer": normalize_then_optimizer,
+    "lazy>normalize>optimizer": lazy_unfold_optimize,
 }
